@@ -2,6 +2,7 @@
 //! Sub-commands execute TLC-generated inputs / behaviours on the real API (G direction) or drive the
 //! real API with seeded random inputs, and record NDJSON traces that TLC validates (V direction).
 mod ex;
+mod c01;
 mod c06;
 
 fn main() {
@@ -13,6 +14,8 @@ fn main() {
     }
     let rest = &args[1..];
     match args[0].as_str() {
+        "c01" => c01::run(rest),
+        "c13" => c01::run_c13(rest),
         "c06" => c06::run(rest),
         other => {
             eprintln!("unknown command {other}");
